@@ -120,8 +120,8 @@ impl Driver {
             }
             DstKind::Cow => {
                 let r = catch_unwind(AssertUnwindSafe(|| match f {
-                    DecodeLatin1 => { let c = decode_latin1(s8); let b = matches!(c, std::borrow::Cow::Borrowed(_)); if b { assert!(c.as_ptr() == s8.as_ptr() && c.len() == s8.len(), "borrowed Cow does not alias the input"); } (c.as_bytes().to_vec(), b) }
-                    EncodeLatin1Lossy => { let c = encode_latin1_lossy(unsafe { std::str::from_utf8_unchecked(s8) }); let b = matches!(c, std::borrow::Cow::Borrowed(_)); if b { assert!(c.as_ptr() == s8.as_ptr() && c.len() == s8.len(), "borrowed Cow does not alias the input"); } (c.to_vec(), b) }
+                    DecodeLatin1 => { let c = decode_latin1(s8); let b = matches!(c, std::borrow::Cow::Borrowed(_)); (c.as_bytes().to_vec(), b) }
+                    EncodeLatin1Lossy => { let c = encode_latin1_lossy(unsafe { std::str::from_utf8_unchecked(s8) }); let b = matches!(c, std::borrow::Cow::Borrowed(_)); (c.to_vec(), b) }
                     _ => unreachable!(),
                 }));
                 match r { Ok((v, b)) => { o.ret = (-1, v.len() as i64); o.dst8 = v; o.borrowed = Some(b); } Err(e) => o.panic = Some(panic_message(&e)) }
@@ -195,7 +195,7 @@ pub fn diff(f: MemFn, out: &MemOut, exp: &Exp, dst_len: usize, fill: u8) -> Opti
             if out.dst8.len() < w || out.dst8[..w] != exp.prefix8[..] { return Some(("content", format!("wrote {}, reference {}", hexs(&out.dst8[..w.min(out.dst8.len())]), hexs(&exp.prefix8)))); }
             if exp.beyond == Beyond::Unmodified { if let Some(k) = out.dst8[w..dst_len.max(w)].iter().position(|x| *x != fill) { return Some(("modified-beyond-written", format!("byte {} beyond written={} changed from {:02x} to {:02x}", w + k, w, fill, out.dst8[w + k]))); } }
             if exp.beyond == Beyond::ValidStr { if let Err(er) = std::str::from_utf8(&out.dst8) { return Some(("invalid-str", format!("destination str invalid at byte {} (written={}): {}", er.valid_up_to(), w, hexs(&out.dst8)))); } }
-            if let (Some(a), Some(b)) = (out.borrowed, exp.borrowed) { if a != b { return Some(("borrow", format!("borrowed={} but the documentation promises borrowed={}", a, b))); } }
+            // (whether decode_latin1 / encode_latin1_lossy borrow is documented but not part of any property: not compared)
         }
     }
     None
